@@ -6,8 +6,17 @@ package grace
 // Higher-order contract: the action f is invoked exactly once, first; "done" (retry == false, err == nil) is reported
 // only if that invocation returned no error and either changed nothing or no grace period is configured.
 
+//@ func (*realGraceExpectations).SatisfiedExpectations
+//@ props C07
+//@ requires r != nil
+//@ ensures unsatisfied_has_positive_wait: (result0 ==> result1 == 0) && (!result0 ==> result1 > 0)
+
+// C07 (no lost wake-up, per call): a retry that is not an error always carries a positive requeue delay, so the caller's
+// RecheckTime lies in the future and the work queue re-delivers the object.
 //@ func runWithGraceSeconds
-//@ props C04 C06
+//@ props C04 C06 C07
+//@ ensures {C07} retry_has_positive_wait: result0 && result2 == nil && graceSeconds > 0 ==> result1 > 0
+//@ ensures {C07} zero_grace_never_waits: result2 == nil && graceSeconds == 0 ==> !result0
 //@ invokes f
 //@ ensures error_passthrough: (result2 != nil) == (#f.ret1 != nil)
 //@ ensures retry_on_error: result2 != nil ==> result0
@@ -15,7 +24,9 @@ package grace
 //@ ensures modified_means_wait: result2 == nil && #f.ret0 && graceSeconds != 0 ==> result0
 
 //@ func RunWithGraceSeconds
-//@ props C04 C06
+//@ props C04 C06 C07
+//@ ensures {C07} retry_has_positive_wait: result0 && result2 == nil && graceSeconds > 0 ==> result1 > 0
+//@ ensures {C07} zero_grace_never_waits: result2 == nil && graceSeconds == 0 ==> !result0
 //@ invokes f
 //@ ensures error_passthrough: (result2 != nil) == (#f.ret1 != nil)
 //@ ensures retry_on_error: result2 != nil ==> result0
